@@ -38,6 +38,8 @@ func init() {
 		Old: "\tif len(vectors) == 0 {\n\t\treturn nil, nil\n\t}\n\n\tscalarIndex := 0", New: "\tif len(vectors) == 0 {\n\t\treturn nil, nil\n\t}\n\tif len(vectors[0].Samples) == 0 && len(vectors) == 1 {\n\t\treturn vectors, nil\n\t}\n\n\tscalarIndex := 0", Expect: "functionOperator"})
 	mutant(Mutant{Rule: "R-NODECOPY", Name: "without-not-copied", File: "logicalplan/distribute.go",
 		Old: "\t\t\t\tWithout:  aggr.Without,\n", New: "", Expect: "AggregateExpr"})
+	mutant(Mutant{Rule: "R-NODECOPY", Name: "engine-options-rebuilt-without-a-field", File: "engine/engine.go",
+		Old: "\treturn &distributedEngine{\n\t\tendpoints:   endpoints,\n\t\tlocalEngine: New(opts),\n\t}", New: "\tfresh := Opts{EngineOpts: opts.EngineOpts, LogicalOptimizers: opts.LogicalOptimizers, DebugWriter: opts.DebugWriter}\n\treturn &distributedEngine{\n\t\tendpoints:   endpoints,\n\t\tlocalEngine: New(fresh),\n\t}", Expect: "Opts"})
 	mutant(Mutant{Rule: "R-EXPRORIGIN", Name: "optimised-root-kept", File: "engine/engine.go",
 		Old: "\texec, err := execution.New(lplan.Expr(), q, ts, ts, 0, e.getLookbackDelta(opts))", New: "\texpr = lplan.Expr()\n\texec, err := execution.New(expr, q, ts, ts, 0, e.getLookbackDelta(opts))", Expect: "NewInstantQuery"})
 	mutant(Mutant{Rule: "R-ACCNONEMPTY", Name: "empty-step-guard-lost", File: "execution/aggregate/vector_table.go",
@@ -318,7 +320,8 @@ func ruleNodeCopy(p *core.Program) []core.Obligation {
 	var obs []core.Obligation
 	n := 0
 	for _, fn := range p.Funcs {
-		if core.Rel(fn.Pkg.Pkg.Path()) != "logicalplan" {
+		rel := core.Rel(fn.Pkg.Pkg.Path())
+		if rel != "logicalplan" && rel != "engine" && rel != "query" && rel != "execution" {
 			continue
 		}
 		core.EachInstr(fn, func(b *ssa.BasicBlock, i int, ins ssa.Instruction) {
@@ -327,7 +330,11 @@ func ruleNodeCopy(p *core.Program) []core.Obligation {
 				return
 			}
 			nt := core.NamedOf(al.Type())
-			if nt == nil || nt.Obj().Pkg() == nil || nt.Obj().Pkg().Path() != pkgParser {
+			if nt == nil || nt.Obj().Pkg() == nil {
+				return
+			}
+			// parser nodes rebuilt by the logical plan, and the option structs of the engine
+			if pp := nt.Obj().Pkg().Path(); !(pp == pkgParser || (strings.HasPrefix(pp, core.Module) && strings.HasSuffix(nt.Obj().Name(), "pts")) || (pp == modQuery && nt.Obj().Name() == "Options")) {
 				return
 			}
 			st, ok := nt.Underlying().(*types.Struct)
@@ -370,7 +377,7 @@ func ruleNodeCopy(p *core.Program) []core.Obligation {
 				}
 			}
 			sort.Strings(missing)
-			key := fmt.Sprintf("%s rebuilds a parser.%s", core.FuncName(fn), nt.Obj().Name())
+			key := fmt.Sprintf("%s rebuilds a %s", core.FuncName(fn), nt.Obj().Name())
 			if len(missing) > 0 {
 				obs = append(obs, core.Ob(rule, key, p.Pos(al.Pos()), core.FuncName(fn), core.Violated, fmt.Sprintf("the rebuilt node copies %d fields of the original but not %v: the rewritten query differs from the one the user wrote", copied, missing)))
 			} else {
